@@ -61,7 +61,8 @@ func p2sh(redeem []byte) []byte {
 type inDef struct {
 	txid, idx int
 	seq       uint32
-	kind      byte // 'g' good unlock, 'b' failing unlock
+	kind      byte  // 'g' good unlock, 'b' failing unlock
+	value     int64 // amount of the spent output (0 when unknown); a fact checked against the universe
 }
 
 type outDef struct {
@@ -78,6 +79,7 @@ type txDef struct {
 	ver                     int32
 	fee, vsize, ssize, size int64
 	bits                    int
+	prioSize                int64 // serialized size minus CalcPriority's per-input overhead (0: priority 0)
 	tx                      *btcutil.Tx
 }
 
@@ -259,6 +261,36 @@ func (u *universe) facts(d *txDef, maxVer int32, minRelay int64) (fee, vsize, ss
 	return
 }
 
+// prioFacts: the inputs' amounts (0 when unknown) and the size CalcPriority divides by.
+func (u *universe) prioFacts(d *txDef) ([]int64, int64) {
+	vals := make([]int64, len(d.ins))
+	overhead := 0
+	for i, in := range d.ins {
+		if v, _, ok := u.outInfo(in.txid, in.idx); ok {
+			vals[i] = v
+		}
+		n := len(d.tx.MsgTx().TxIn[i].SignatureScript)
+		if n > 110 {
+			n = 110
+		}
+		overhead += 41 + n
+	}
+	sz := d.tx.MsgTx().SerializeSize()
+	if overhead >= sz {
+		return vals, 0
+	}
+	return vals, int64(sz - overhead)
+}
+
+// setPrioFacts writes them into the definition (generator side).
+func (u *universe) setPrioFacts(d *txDef) {
+	vals, ps := u.prioFacts(d)
+	for i := range d.ins {
+		d.ins[i].value = vals[i]
+	}
+	d.prioSize = ps
+}
+
 // ---------------------------------------------------------------- line grammar
 
 func splitList(s, sep string) []string {
@@ -270,7 +302,7 @@ func splitList(s, sep string) []string {
 
 func parseTxDef(s string) (*txDef, error) {
 	f := strings.Split(s, ":")
-	if len(f) != 10 {
+	if len(f) != 10 && len(f) != 11 {
 		return nil, fmt.Errorf("txdef fields")
 	}
 	d := &txDef{lock: f[3]}
@@ -280,8 +312,14 @@ func parseTxDef(s string) (*txDef, error) {
 	}
 	for _, is := range splitList(f[1], ",") {
 		p := strings.Split(is, ".")
-		if len(p) != 4 || len(p[3]) != 1 {
+		if (len(p) != 4 && len(p) != 5) || len(p[3]) != 1 {
 			return nil, fmt.Errorf("in")
+		}
+		var val int64
+		if len(p) == 5 {
+			if val, err = strconv.ParseInt(p[4], 10, 64); err != nil || val < 0 {
+				return nil, fmt.Errorf("in value")
+			}
 		}
 		t, e1 := strconv.Atoi(p[0])
 		i, e2 := strconv.Atoi(p[1])
@@ -289,7 +327,7 @@ func parseTxDef(s string) (*txDef, error) {
 		if e1 != nil || e2 != nil || e3 != nil {
 			return nil, fmt.Errorf("in")
 		}
-		d.ins = append(d.ins, inDef{t, i, uint32(q), p[3][0]})
+		d.ins = append(d.ins, inDef{t, i, uint32(q), p[3][0], val})
 	}
 	for _, os := range splitList(f[2], ",") {
 		p := strings.Split(os, ".")
@@ -320,13 +358,18 @@ func parseTxDef(s string) (*txDef, error) {
 	if d.bits, err = strconv.Atoi(f[9]); err != nil {
 		return nil, err
 	}
+	if len(f) == 11 {
+		if d.prioSize, err = strconv.ParseInt(f[10], 10, 64); err != nil {
+			return nil, err
+		}
+	}
 	return d, nil
 }
 
 func (d *txDef) String() string {
 	var ins, outs []string
 	for _, i := range d.ins {
-		ins = append(ins, fmt.Sprintf("%d.%d.%d.%c", i.txid, i.idx, i.seq, i.kind))
+		ins = append(ins, fmt.Sprintf("%d.%d.%d.%c.%d", i.txid, i.idx, i.seq, i.kind, i.value))
 	}
 	for _, o := range d.outs {
 		if o.pad > 0 {
@@ -341,8 +384,8 @@ func (d *txDef) String() string {
 		}
 		return strings.Join(l, ",")
 	}
-	return fmt.Sprintf("%d:%s:%s:%s:%d:%d:%d:%d:%d:%d", d.id, j(ins), j(outs), d.lock, d.ver,
-		d.fee, d.vsize, d.ssize, d.size, d.bits)
+	return fmt.Sprintf("%d:%s:%s:%s:%d:%d:%d:%d:%d:%d:%d", d.id, j(ins), j(outs), d.lock, d.ver,
+		d.fee, d.vsize, d.ssize, d.size, d.bits, d.prioSize)
 }
 
 type policy struct {
